@@ -37,7 +37,7 @@ func (b *c17Bus) Publish(topic string, ev events.Event) {
 		b.evs = append(b.evs, "WRONGTOPIC")
 	case !ok || d.Key == nil:
 		b.evs = append(b.evs, "WRONGDATA")
-	case ev.Source != "pppoe" || d.Reason != "evicted by cross-protocol claim":
+	case ev.Source != "pppoe" || (d.Reason != "evicted by cross-protocol claim" && d.Reason != "superseded by a newer PPPoE session on the tuple"):
 		b.evs = append(b.evs, "WRONGSOURCE-OR-REASON")
 	default:
 		b.evs = append(b.evs, c17Hex(d.SessionID)+"@"+c17ShowKey(*d.Key))
